@@ -59,6 +59,12 @@ CLAIMED = {
  "C17": ("TLA+: outcome predicate of parse() (a pendulum value or ValueError), recogniser Recognise/RecDuration as the reference for accepted strings, strict-mode alphabet predicate; TLC trace validation over character edits of valid forms, truncations, concatenations and random (incl. non-ASCII) strings x options, both back-ends",
          "every recorded parse() outcome - seeds of all C07/C13 forms, their single character edits (sampled in the quick tier, all in the thorough tier), sampled double edits, truncations, concatenations, hand-written and random strings incl. non-ASCII digits, x {exact, strict, tz, day_first, year_first} - is judged by TLC: totality (value of one of the five types or ValueError) of parse() and of each low-level parser, equality of the two parsers where both accept, strict rejection of text with characters outside the ISO alphabet, and - for every string the spec's recogniser accepts - equality with the denoted value",
          "TLC, harness projection; the dateutil fallback (strict=False) is constrained by totality only", "7 C17"),
+ "C08": ("TLA+ token table (FormatTokens.TokText: every documented token as a function of the abstract value, over Calendar/Zones/BigNat), named-format compositions and from_format inversion rule; TLC trace validation of format()/to_*_string()/from_format(), both back-ends, all locales",
+         "every recorded format() - each token x boundary values (hour 0/12/23, fraction widths, negative and :30/:45 offsets, LMT, three-part zone names, day-of-year and weekday boundaries, timestamps before and after 1970), random token sequences with literal separators and [escapes], the named to_*_string() helpers (whose documented composition is a table in the spec), localized month/day names and ordinals in all locales x 12 months x 7 weekdays - is judged by TLC character by character; from_format(format(x)) for complete formats, localized names in every locale, formats without a date (now), non-matching strings (ValueError)",
+         "TLC; the locale tables are specification data exported from the working tree (the spec decides which entry must appear, not what it spells); harness projection. This is table-driven oracle checking, weaker than state exploration", "7 C08"),
+ "C18": ("TLA+ admissible (unit, count) set, direction, template key path and placeholder substitution (FormatTokens.HumanCandidates / InWordsR over the exported locale tables); TLC trace validation of format_diff/diff_for_humans/in_words over all locales x units x plural classes x flags",
+         "every recorded format_diff / diff_for_humans (explicit reference instants and a patched now) / in_words - all shipped locales x 7 units x counts covering every CLDR plural class (0..1000 exhaustively in the thorough tier) x {now, other} x {past, future} x {absolute}, the round-up thresholds, random instants - is judged by TLC: no exception, non-empty, no placeholder left, and the phrase is the locale's own template for an admissible (unit, count) in the right direction",
+         "TLC; locale tables and CLDR plural categories are data tabulated from the working tree; harness projection. The count is constrained to the largest non-zero unit or its round-up (within one unit of the elapsed time), not to pendulum's particular thresholds", "7 C18"),
 }
 NOT_YET = "check not built yet in this round (planned: see DESIGN.md section 7)"
 
